@@ -102,14 +102,19 @@ class Kernel:
         self.finished = False
         self.max_events = 0
         self._names: dict[str, str] = {}
+        self._normcache: dict[str, str] = {}
         self.observers: list = []  # callables(kernel, event) run after each event
 
     # ------------------------------------------------------------------ helpers
     def norm(self, path) -> str:
         p = os.fspath(path)
-        if not os.path.isabs(p):
-            p = os.path.join(self.root, p)
-        return os.path.normpath(p)
+        r = self._normcache.get(p)
+        if r is None:
+            q = p if os.path.isabs(p) else os.path.join(self.root, p)
+            # realpath: symbolic links that exist on the real file system (the sandbox's `ln -> .` and
+            # `lnk_libN.ukv -> libN.ukv`) alias names here exactly as they do for molli's rwlock()
+            r = self._normcache[p] = os.path.realpath(q)
+        return r
 
     def set_phase(self, label: str | None, pid: int | None = None):
         self.phase[self.cur_pid if pid is None else pid] = label
